@@ -13,7 +13,7 @@ INFO = {
                   'rtamt.semantics.arithmetic.discrete_time.online.*_operation.update (all)',
                   'offline evaluator (as the property\'s own oracle) and rho_dt'],
     'bounds': {'quick': 'past/Boolean/arithmetic F1 x bounds x N in 1,2,3,5,7 (N > 2(end+1) for the longest); F2 sample; F-dup; '
-                        'unit-level step of the 4 bounded operations from an arbitrary buffer state, end<=3',
+                        'unit-level step of the 4 bounded operations from an arbitrary buffer state, end<=3; near-duplicate operators (bounds differing only in a fraction or a unit) in one specification; the future-free notation cases of vf/pool.py',
                'thorough': 'bounds 0<=a<=b<=4,(0,6),(3,6), N up to 14; F2 exhaustive; F3 seeded; unit step end<=6'},
     'outside': 'histories longer than N updates (covered only by the unit-level inductive step for the bounded operations)',
     'assumptions': ['arithmetic operands finite; Boolean/temporal operands extended reals'],
